@@ -41,12 +41,20 @@ prop("C19", "fault_enumeration",
      "time stamp field: server clock +/- {0,1,4,5,6,7,3600} s, 0, 1, 2^31, 2^32, 2^62, 2^63-1, 2^63, 2^64-1 and neighbours, server "
      "clock +/- 2^b for b in 8..63 with offsets -6..+6 (among them 2^63+clock-1, 2^63+clock, 2^63+clock+6), random 64-bit values "
      "and random high halves riding on the clock, each optionally presented again after 1 s..1 h from the same or another address "
-     "(presentations are aligned to 100 ms past a whole second of the server's clock). Every datagram that leaves the "
+     "(presentations are aligned to 100 ms past a whole second of the server's clock), AND UNDER A CHOSEN 4-BYTE HEADER - the header "
+     "is the first thing both sides absorb, so all tags and MACs are computed over the header as sent: version byte 0, 2, 3, 5, 9, "
+     "0x11, 0x21, 0x41, 0x7f, 0x80, 0x81, 0xfe, 0xff (rapid: any value) instead of the protocol's 1, and/or a certificates-length "
+     "field that is off by +-1, -2, +-16, 255, +-256, 0x7fff, 0x8000, 0xffff, down to 0 (rapid: any 16-bit offset), with or without "
+     "padding the datagram to the announced size (the hidden request has no reserved bytes: bytes 2..3 frame the message); two "
+     "thirds of these carry a time stamp inside the window. Every datagram that leaves the "
      "server's address is attributed to the step before it. Oracle: nothing leaves the server except at most one "
      "ServerResponseHidden, to the source, per valid request that is delivered within HiddenModeTimestampExpiration (5 s) of its "
      "time stamp; delays >= 6 s and clocks >= 6 s ahead must stay unanswered; a chosen stamp is read as the unsigned 64-bit number of "
      "seconds it is on the wire: at least 6 s behind or at least 6 s ahead of the server's clock at the presentation (first or "
-     "repeated) must stay unanswered, 0..5 s behind may be answered once; the band in between and byte-identical replays inside "
+     "repeated) must stay unanswered, 0..5 s behind may be answered once; a request whose header announces a version other than the "
+     "protocol's (handshake_spec.md: type | Protocol Version | Certs Len; 'Only one version is supported') or whose length field does "
+     "not frame the message is not well-formed and must stay unanswered at every presentation whatever its time stamp (signatures "
+     "hidden-server-answered:unsupported-version-request / misframed-request); the band in between and byte-identical replays inside "
      "the window are labelled and not judged. Each case ends with an honest request from a new address (a dead server would be "
      "trivially silent). Non-trivial = every probe except a fresh valid request; distinct by case.",
      ["ML-KEM, X25519, SHA-3, Kravatte-SANSE and the Cyclist duplex are treated as ideal; alterations are structural",
@@ -72,7 +80,8 @@ prop("C19", "fault_enumeration",
           "another key, with an altered or foreign cookie, or after cookie-key rotation (cookies minted in the server's 1st..6th key "
           "period; keys that differ from the client's key in a single region - down to its last bit; the server busy answering "
           "hellos over a slow socket when a rotation falls due); one probe class per case against a hidden "
-          "server (among them correctly keyed requests with boundary values of the 64-bit time stamp field and their late replays) "
+          "server (among them correctly keyed requests with boundary values of the 64-bit time stamp field and their late replays, and "
+          "correctly keyed requests sent under another protocol version byte or a length field that does not frame them) "
           "with the wire log of the server's address as the observation point.",
      note="trusts synctest, vlib/simnet (wire log), the white-box read of Server.handshakes/sessions/cookieKey; the cryptographic "
           "primitives are treated as ideal",
